@@ -1325,6 +1325,55 @@ func (m *Machine) call(x *ssa.Call, state map[string]Vec) {
 		}
 		m.Snaps[x] = snap
 	}
+	if b := core.BuiltinName(x); b == "copy" && len(x.Call.Args) == 2 {
+		// copy(dst, src) with a length the slices fix (a header template copied into the fragment): byte by byte;
+		// with an unknown length every tracked byte of the destination from its start on becomes unknown
+		dst, src := x.Call.Args[0], x.Call.Args[1]
+		nd, okd := m.constLen(dst)
+		ns, oks := m.constLen(src)
+		n := int64(-1)
+		switch {
+		case okd && oks:
+			n = nd
+			if ns < n {
+				n = ns
+			}
+		case okd && !oks, !okd && oks:
+			// the shorter operand decides; only an upper bound is known
+		}
+		loopy := m.inLoop[x.Block()] && !m.iterationLocalSlice(dst)
+		if n >= 0 && n <= 64 {
+			vals := make([]Vec, n)
+			for i := int64(0); i < n; i++ {
+				if v, has := m.byteOf(src, i, state); has && !loopy {
+					vals[i] = v
+				} else {
+					vals[i] = topVec(8)
+				}
+			}
+			for i := int64(0); i < n; i++ {
+				if key, ok := m.byteKey(dst, i); ok {
+					state[key] = vals[i]
+				}
+			}
+		} else if rn, bn, off, ok := m.sliceName(dst); ok && bn == "" {
+			prefix := rn + "["
+			for k := range state {
+				if !strings.HasPrefix(k, prefix) || !strings.HasSuffix(k, "]") {
+					continue
+				}
+				var idx int64
+				if _, err := fmt.Sscanf(k[len(prefix):len(k)-1], "%d", &idx); err == nil && fmt.Sprintf("%s[%d]", rn, idx) == k && idx >= off {
+					if okd && idx >= off+nd {
+						continue
+					}
+					state[k] = topVec(8)
+				}
+			}
+		}
+		m.setEnv(x, topVec(64))
+		return
+	}
 	if b := core.BuiltinName(x); b == "len" || b == "cap" {
 		m.setEnv(x, m.refine(srcVec(b+"("+m.lenName(x.Call.Args[0])+")", 64), x.Block()))
 		return
@@ -1732,6 +1781,35 @@ func (m *Machine) AllStores() []StoreRec {
 		out = append(out, s.AllStores()...)
 	}
 	return out
+}
+
+// constLen: the length of a slice value when its bounds fix it (x[lo:hi] with constant bounds, arr[:] of an array).
+func (m *Machine) constLen(v ssa.Value) (int64, bool) {
+	sl, ok := v.(*ssa.Slice)
+	if !ok {
+		return 0, false
+	}
+	lo := int64(0)
+	if sl.Low != nil {
+		k, isC := core.ConstInt(sl.Low)
+		if !isC {
+			return 0, false
+		}
+		lo = k
+	}
+	if sl.High != nil {
+		k, isC := core.ConstInt(sl.High)
+		if !isC {
+			return 0, false
+		}
+		return k - lo, k >= lo
+	}
+	if pt, ok := sl.X.Type().Underlying().(*types.Pointer); ok {
+		if at, ok := pt.Elem().Underlying().(*types.Array); ok {
+			return at.Len() - lo, at.Len() >= lo
+		}
+	}
+	return 0, false
 }
 
 // InLoop reports whether block b belongs to a loop.
